@@ -3,6 +3,8 @@ package main
 import (
 	"encoding/json"
 	"go/types"
+	"strconv"
+	"strings"
 
 	"golang.org/x/tools/go/ssa"
 )
@@ -18,7 +20,35 @@ func (e *Exec) invokeIntrinsic(recv *IfaceV, method string, args []Value) func()
 	return nil
 }
 
+func oidString(e *Exec, fn *ssa.Function, args []Value) Value {
+	sl := args[0].(*SliceV)
+	n, ok := concInt(sl.Len)
+	if !ok {
+		n = int64(e.concretize(sl.Len, sl.Cap+1))
+	}
+	arcs := make([]*BV, n)
+	allc := true
+	for i := range arcs {
+		arcs[i] = e.sliceElem(sl, i).(*BV)
+		if arcs[i].C == nil {
+			allc = false
+		}
+	}
+	if allc {
+		parts := make([]string, n)
+		for i, a := range arcs {
+			parts[i] = strconv.FormatInt(a.sval(), 10)
+		}
+		return cstr(strings.Join(parts, "."))
+	}
+	e.stub("model:ObjectIdentifier.String(arc-wise)")
+	r := e.ufCall("oid.String", []Value{&SliceV{O: sl.O, P: sl.P, Off: sl.Off, Len: cbv(uint64(n), 64), Cap: sl.Cap}}, types.Typ[types.String]).(*StrV)
+	return &StrV{T: r.T, OID: arcs}
+}
+
 func addMoreIntrinsics(m map[string]intrinsic) {
+	m["(github.com/zmap/zcrypto/encoding/asn1.ObjectIdentifier).String"] = oidString
+	m["(encoding/asn1.ObjectIdentifier).String"] = oidString
 	// --- encoding/json on strings (C13/C14); everything else about the codec is trusted, not executed ---
 	m["encoding/json.Marshal"] = func(e *Exec, fn *ssa.Function, args []Value) Value {
 		iv := args[0].(*IfaceV)
